@@ -167,8 +167,9 @@ func (t *basicTaskBase) startBasicTask() (err error) {
 		_, errStderr = io.Copy(stderr, stderrIn)
 	}()
 
+	// Kill resets t.taskCmd, possibly before the goroutine below gets to run
+	taskCmd := t.taskCmd
 	go func() {
-		taskCmd := t.taskCmd
 		err = taskCmd.Wait()
 		// ^ when this unblocks, the task is done
 
@@ -244,13 +245,15 @@ func (t *basicTaskBase) startBasicTask() (err error) {
 }
 
 func (t *basicTaskBase) ensureBasicTaskKilled() (err error) {
-	if t.taskCmd == nil {
+	// STOP and KILL may get here at the same time and Kill resets t.taskCmd
+	taskCmd := t.taskCmd
+	if taskCmd == nil {
 		return nil
 	}
 	if t.Tci.ControlMode == controlmode.HOOK {
 		return nil
 	}
-	if t.taskCmd.Process == nil || t.taskCmd.ProcessState != nil {
+	if taskCmd.Process == nil || taskCmd.ProcessState != nil {
 		// never started, or already waited for: there is nothing left to kill.
 		// ProcessState stays nil until Wait returns, so it must not be dereferenced
 		// while the task is still running.
@@ -262,7 +265,7 @@ func (t *basicTaskBase) ensureBasicTaskKilled() (err error) {
 
 	// TODO: SIGTERM before SIGKILL
 
-	pid := t.taskCmd.Process.Pid
+	pid := taskCmd.Process.Pid
 	err = syscall.Kill(-pid, syscall.SIGKILL)
 	if err != nil {
 		log.WithError(err).
@@ -312,6 +315,8 @@ func (t *basicTaskBase) Transition(cmd *executorcmd.ExecutorCommand_Transition) 
 
 func (t *basicTaskBase) Kill() error {
 	if t.taskCmd != nil {
+		// a basic task may still be running when it is killed (hooks are left to finish)
+		_ = t.ensureBasicTaskKilled()
 		t.taskCmd = nil
 	}
 
